@@ -676,6 +676,12 @@ class Daemon(object):
                     raise errors.DaemonError("object or class already has a Pyro id")
             if objectId in self.objectsById:
                 raise errors.DaemonError("an object or class is already registered with that id")
+        elif objectId in self.objectsById:
+            replaced = self.objectsById[objectId]
+            if isinstance(replaced, weakref.ref):
+                replaced = replaced()
+            if getattr(replaced, "_pyroId", None) == objectId:
+                self.unregister(replaced)  # the object that is replaced no longer belongs to this daemon
         # set some pyro attributes
         obj_or_class._pyroId = objectId
         obj_or_class._pyroDaemon = self
